@@ -249,6 +249,11 @@ func coqTy(t reflect.Type) string {
 	default:
 		u = "TAny (* unsupported kind " + t.Kind().String() + " *)"
 	}
+	if t.Name() == "" && isRegistered[t] {
+		// a registered UNNAMED type (a pointer type to a defined type, named "*pkg.T" by sb.TypeName): in the
+		// model registration is a flag of a defined type, so it becomes one with that name
+		return fmt.Sprintf("(TNamed %s true [] %s)", coqStrBytes(sb.TypeName(t)), u)
+	}
 	if t.Name() != "" && t.PkgPath() != "" {
 		var depr []string
 		if t.Implements(reflect.TypeOf((*sb.HasDeprecatedFields)(nil)).Elem()) {
@@ -857,4 +862,13 @@ func hasCompositeIfaceKey(v reflect.Value) bool {
 		}
 	}
 	return false
+}
+
+// register further types for the running family only (each family is its own process)
+func registerExtra(ts ...reflect.Type) {
+	for _, t := range ts {
+		sb.Register(t)
+		isRegistered[t] = true
+		registeredTypes = append(registeredTypes, t)
+	}
 }
